@@ -130,8 +130,8 @@ fn f7_iter_returns_declared_dimension_for_binary_quantized() {
     assert_eq!(it, got);
 }
 
-/// F8 (KNOWN FINDING, C14, not repaired): with a bucket capacity >= 200 and a tiny memory hint an over-full bucket is re-queued forever.
-/// This test FAILS on the current tree (the build is cancelled after 15 s).
+/// F8 (C14, fixed by 7b6828b): with a bucket capacity >= 200 and a tiny memory hint an over-full bucket was re-queued forever.
+/// Before the fix the build was cancelled after 15 s.
 #[test]
 fn f8_memory_limited_build_with_large_capacity_terminates() {
     use std::time::{Duration, Instant};
